@@ -65,6 +65,8 @@ Rfc6979Sign(d, e) == Rfc6979SignFrom(d, e, 1)
 PreHashName == <<118, 101, 114, 105, 102, 47, 100, 111, 109, 97, 105, 110>>      \* "verif/domain"
 AuxZero == Rep(0, 32)          \* the replayer's entropy reader for BIP-340 signing delivers 32 zero bytes
 
+Uint64Class(c) == CASE c = 0 -> 0 [] c = 1 -> 1 [] OTHER -> SSub(ModPow(2, 64, N), 1)      \* 0, 1, 2^64 - 1 (reduced mod n on the miniature curves)
+
 PointOps1 == {"pt.Double", "pt.Negate", "pt.Set"}
 PointOps2 == {"pt.Add", "pt.Subtract"}
 DecodeOps == {"pt.SetBytes", "pt.SetCompressedBytes", "pt.SetUncompressedBytes"}
@@ -252,6 +254,39 @@ Step(st, ev) ==
          ELSE LET sg == SignB(st.spriv, st.buf[ev.m], AuxZero) IN IF sg[1] = "ok" THEN Ok(SetBuf(st, ev.b, sg[2])) ELSE Err(st)
     [] ev.op = "spub.Verify" ->
          IF st.spub = Nil THEN Panic(st) ELSE OkR(st, IF VerifyB(st.spub, st.buf[ev.m], st.buf[ev.b]) THEN 1 ELSE 0)
+    (* ---- round 8: the rest of the exported surface ---- *)
+    [] ev.op = "sc.Set"  -> Ok([st EXCEPT !.sc[ev.s] = st.sc[ev.p]])
+    [] ev.op = "sc.One"  -> Ok(SetSc(st, ev.s, 1))
+    [] ev.op = "sc.Zero" -> Ok(SetSc(st, ev.s, 0))
+    [] ev.op = "sc.NewFrom" -> Ok([st EXCEPT !.sc[ev.s] = st.sc[ev.p]])                    \* a FRESH object replaces the slot's object
+    [] ev.op = "sc.NewFromUint64" -> Ok(SetSc(st, ev.s, Uint64Class(ev.c)))                \* c: 0, 1, 2 -> 0, 1, 2^64 - 1
+    [] ev.op = "sc.NewFromBytes" ->                                                        \* fresh object + reduction flag
+         LET b == st.buf[ev.b] IN
+         IF Len(b) # W THEN Panic(st) ELSE OkR(SetSc(st, ev.s, SDecode(OS2IP(b))[1]), SDecode(OS2IP(b))[2])
+    [] ev.op = "sc.NewFromCanonicalBytes" ->                                               \* fresh object, or nothing
+         LET b == st.buf[ev.b] IN
+         IF Len(b) # W THEN Panic(st) ELSE IF OS2IP(b) \prec N THEN Ok(SetSc(st, ev.s, OS2IP(b))) ELSE Err(st)
+    [] ev.op = "pt.SplitUncompressed" ->    \* SplitUncompressedPoint(buf[b]) -> x bytes into buf[m] (a copy made by the caller), reply = parity of the last byte
+         LET b == st.buf[ev.b] IN
+         IF Len(b) # 2 * W + 1 THEN Panic(st) ELSE OkR(SetBuf(st, ev.m, SubSeq(b, 2, W + 1)), b[2 * W + 1] % 2)
+    [] ev.op = "key.SignRaw" ->             \* PrivateKey.SignRaw(RFC6979SHA256(), buf[m]) -> fresh scalars r, s in slots s, t; reply v
+         IF st.priv = Nil THEN Panic(st)
+         ELSE LET h == HashToScalarB(st.buf[ev.m]) IN
+              IF h[1] = "err" THEN Err(st)
+              ELSE LET sg == Rfc6979Sign(OS2IP(st.priv), h[2]) IN OkR(SetSc(SetSc(st, ev.s, sg[2]), ev.t, sg[3]), sg[4])
+    [] ev.op = "key.VerifyRaw" ->           \* PublicKey.VerifyRaw(buf[m], sc[s], sc[t]): a predicate
+         IF st.pub = Nil THEN Panic(st)
+         ELSE LET h == HashToScalarB(st.buf[ev.m]) IN
+              OkR(st, IF h[1] = "ok" /\ VerifyPred(DecodeB(st.pub)[2], h[2], ScOf(st, ev.s), ScOf(st, ev.t)) THEN 1 ELSE 0)
+    [] ev.op = "key.SignHedged" ->          \* PrivateKey.Sign(reader, buf[m], compact) -> buf[b]; c = 0: the reader delivers 32 bytes, c = 1: it fails after 31.
+         IF st.priv = Nil THEN Panic(st)    \* WHICH signature is not specified (hedged nonce): the model takes the RFC 6979 one, Trace_Api accepts any valid low-s one
+         ELSE LET dg == st.buf[ev.m] IN
+              IF Len(dg) # W \/ ev.c # 0 THEN Err(st)
+              ELSE LET sg == Rfc6979Sign(OS2IP(st.priv), HashToScalarB(dg)[2]) IN Ok(SetBuf(st, ev.b, EncodeSig(1, sg[2], sg[3], sg[4])))
+    [] ev.op \in {"h2c.RO", "h2c.NU"} ->    \* hash-to-curve: tag buf[b], message buf[m] -> a FRESH point in slot v; an empty tag is refused
+         LET r == IF ev.op = "h2c.RO" THEN HashToCurveRO(st.buf[ev.m], st.buf[ev.b]) ELSE EncodeToCurveNU(st.buf[ev.m], st.buf[ev.b]) IN
+         IF r[1] = "ok" THEN Ok(SetPt(st, ev.v, r[2])) ELSE Err(st)
+    [] ev.op = "btc.IsBip66" -> OkR(st, IF IsBip66(st.buf[ev.b]) THEN 1 ELSE 0)
     (* ---- the caller (environment) ---- *)
     [] ev.op \in {"env.LoadBuf", "env.MutateBuf"} -> Ok(SetBuf(st, ev.b, ev.content))
     [] ev.op = "env.AppendByte" -> Ok(SetBuf(st, ev.b, Append(st.buf[ev.b], 1)))           \* append(buf, 0x01): the caller grows a slice it may have been handed
